@@ -355,7 +355,7 @@ def _has_any(ty, depth=0):
 TAG_POOLS = (('v1', 'v2', 'v3', 'v4'), (1, 2, 3, 4), ('a', 2, None, True), (10, 'ten', 10.5, b'x'))
 
 
-def gen_tagged(rng, depth, layout=None, overlap=None):
+def gen_tagged(rng, depth, layout=None, overlap=None, naming=False):
     n = rng.choice((2, 2, 3, 4))
     pool = rng.choice(TAG_POOLS)
     tagname = rng.choice(('tag', 'kind', 'type_of'))
@@ -377,7 +377,7 @@ def gen_tagged(rng, depth, layout=None, overlap=None):
             spec = ClassM(f"K{next(_serial)}", fields, dict(spec0.opts), None)
             spec.tagval = pool[i]
         else:
-            spec = gen_class(rng, max(depth - 1, 0), naming=False, variant_tag=(tagname, pool[i]), simple=rng.random() < 0.6,
+            spec = gen_class(rng, max(depth - 1, 0), naming=naming, variant_tag=(tagname, pool[i]), simple=rng.random() < 0.6,
                              force={'in_format': ('struct',)} if rng.random() < 0.7 else None)
             if 'struct' not in spec.opt('in_format') and layout is False:
                 spec.opts['in_format'] = ('struct', 'tuple')
